@@ -285,6 +285,28 @@ def run(chk, tier, only_rule=None):
                                   any(z.get('k') == 'ReturnStmt' for z in A.walk(y.get('then'))) for y in A.walk_no_lambda(lp.get('body')))
                         ln = g.node_of(lp.get('range'))
                         if rej and ln is not None and nd is not None and g.dominates(ln, nd): ok = True
+                # (i') the same rejection written with a standard algorithm over all arguments:
+                #      std::all_of(args.begin(), args.end(), [](const parameter& p) { return p.is_value(); }) holds on the way here
+                #      (or any_of / none_of with the negated predicate)
+                for cond_ast, label, edge in (g.guards(nd) if nd is not None and pred == 'is_value' else []):
+                    c0 = A.strip(cond_ast, casts=True)
+                    if c0 is None or not A.is_call(c0) or A.callee_name(c0) not in ('all_of', 'any_of', 'none_of'): continue
+                    aa = c0.get('args') or []
+                    if len(aa) != 3: continue
+                    rng = [A.strip(y, casts=True) for y in aa[:2]]
+                    if not all(r is not None and A.is_call(r) and A.callee_name(r) in ('begin', 'end', 'cbegin', 'cend') and (A.strip(r.get('obj'), casts=True) or {}).get('id') == argp[0]['id'] for r in rng): continue
+                    if [A.callee_name(r).lstrip('c') for r in rng] != ['begin', 'end']: continue
+                    le = next((y for y in A.walk(aa[2]) if y.get('k') == 'LambdaExpr'), None)
+                    if le is None or len(le.get('params') or []) != 1: continue
+                    st = (le.get('body') or {}).get('c') or []
+                    if len(st) != 1 or st[0].get('k') != 'ReturnStmt': continue
+                    rv = A.strip(st[0].get('val'), casts=True); neg = False
+                    while rv is not None and rv.get('k') == 'UnaryOperator' and rv.get('op') == '!':
+                        neg = not neg; rv = A.strip(rv.get('sub'), casts=True)
+                    if rv is None or not A.is_call(rv) or A.callee_name(rv) != 'is_value' or (A.strip(rv.get('obj'), casts=True) or {}).get('id') != le['params'][0]['id']: continue
+                    alg = A.callee_name(c0)
+                    holds = (alg == 'all_of' and not neg and label is True) or (alg == 'any_of' and neg and label is False) or (alg == 'none_of' and neg and label is True)
+                    if holds: ok = True
                 # (ii) `reference r = args[k].value();` only binds a reference: the obligation is on the uses of r
                 decl = None
                 if nd is not None and isinstance(nd.ast, dict) and nd.ast.get('k') == 'DeclStmt':
